@@ -112,7 +112,12 @@ func (s *sim) drain() {
 			if ok {
 				progressed = true
 				t := nc.ChannelType()
-				s.event("nc:" + pname(t))
+				s.event(fmt.Sprintf("nc:%s:%d", pname(t), len(nc.ExtraData())))
+				redecide := func(err error) { // a second decision on the same NewChannel must fail and change nothing
+					if err == nil {
+						s.event("redecide-ok")
+					}
+				}
 				switch {
 				case strings.HasPrefix(t, "d"):
 					s.deferred = append(s.deferred, nc) // left undecided
@@ -123,10 +128,20 @@ func (s *sim) drain() {
 					} else {
 						s.event("accept-err")
 					}
-				case strings.HasPrefix(t, "b"):
-					nc.Reject(ssh.ConnectionFailed, "no")
+					redecide(nc.Reject(ssh.Prohibited, "again"))
 				default:
-					nc.Reject(ssh.Prohibited, "no")
+					reason := ssh.Prohibited
+					switch {
+					case strings.HasPrefix(t, "b"):
+						reason = ssh.ConnectionFailed
+					case strings.HasPrefix(t, "u"):
+						reason = ssh.UnknownChannelType
+					case strings.HasPrefix(t, "r"):
+						reason = ssh.ResourceShortage
+					}
+					nc.Reject(reason, "no")
+					_, _, err := nc.Accept()
+					redecide(err)
 				}
 			}
 		default:
@@ -343,7 +358,7 @@ func exec(line string) string {
 			}
 			continue
 		}
-		if ended && (tok[0] == 'p' || tok == "x") {
+		if ended && (tok[0] == 'p' || tok == "x" || tok == "z") {
 			segs = append(segs, "-")
 			continue
 		}
@@ -535,6 +550,29 @@ func exec(line string) string {
 				return len(s.ev) > n0 || c.done
 			})
 			segs = append(segs, s.flush())
+		case tok == "z": // the application closes the connection
+			s.mux.Close()
+			ended = true
+			r := s.endCheck()
+			if r == "hang" {
+				return strings.Join(append(segs, "hang"), "|")
+			}
+			segs = append(segs, r)
+		case tok[0] == 'e':
+			h, _ := strconv.Atoi(tok[1:])
+			s.mu.Lock()
+			nh := len(s.held)
+			s.mu.Unlock()
+			if h >= nh {
+				segs = append(segs, "-")
+				continue
+			}
+			if err := s.held[h].ch.CloseWrite(); err != nil {
+				s.event(fmt.Sprintf("E%d=err", step))
+			} else {
+				s.event(fmt.Sprintf("E%d=ok", step))
+			}
+			segs = append(segs, s.flush())
 		case tok[0] == 'k':
 			h, _ := strconv.Atoi(tok[1:])
 			s.mu.Lock()
@@ -668,6 +706,8 @@ func genOne(g *hx.Gen) {
 	r := g.R
 	gs := &gsim{}
 	var toks []string
+	feat := map[string]bool{} // features of this script (for the pair.<a>+<b> coverage counters)
+	mark := func(f string) { feat[f] = true }
 	liveSlots := func() []int {
 		var live []int
 		for i, s := range gs.slots {
@@ -697,7 +737,7 @@ func genOne(g *hx.Gen) {
 		confirmOK, failureOK := false, false
 		switch {
 		case c < 14: // channel open from the peer
-			typ := r.PickStr("a", "a1", "ab", "a", "b", "bx", "c", "session", "", "d", "dx")
+			typ := r.PickStr("a", "a1", "ab", "a", "b", "bx", "c", "session", "", "d", "dx", "u", "ux", "r", "r1")
 			mp := uint32(r.PickInt(9, 32768, 1<<31, 100))
 			if r.Chance(1, 8) {
 				mp = uint32(r.PickInt(0, 8, 1<<31+1, 0xffffffff))
@@ -713,13 +753,16 @@ func genOne(g *hx.Gen) {
 					if strings.HasPrefix(typ, "d") {
 						ch.decided = false
 						g.Stat("open.left-undecided")
+						mark("open-undecided")
 					} else if strings.HasPrefix(typ, "a") {
 						ch.held = true
 						gs.heldSlots = append(gs.heldSlots, slot)
 						g.Stat("open.accepted")
+						mark("open-acc")
 					} else {
 						gs.slots[slot] = nil
 						g.Stat("open.rejected")
+						mark("open-rej")
 					}
 				}
 			}
@@ -732,8 +775,10 @@ func genOne(g *hx.Gen) {
 				if gs.globalPending {
 					gs.globalPending = false
 					g.Stat("global.reply-solicited")
+					mark("gl-reply-sol")
 				} else {
 					g.Stat("global.reply-unsolicited")
+					mark("gl-reply-unsol")
 				}
 			}
 		case c < 32: // ping
@@ -751,7 +796,14 @@ func genOne(g *hx.Gen) {
 			if ch == nil {
 				g.Stat("chan.unknown-id")
 			}
-			switch k := r.Intn(15); k {
+			k := r.Intn(19)
+			if k >= 15 { // the rare connection-ending kinds get extra weight: open failure, non-channel messages, unknown numbers
+				k = 12 + (k-15)%3
+			}
+			if ch != nil && ch.pendingReq && r.Chance(1, 2) { // answer a pending channel request
+				k = 7
+			}
+			switch k {
 			case 0:
 				d := r.Bytes(r.PickInt(0, 1, 10, 100))
 				l := uint32(len(d))
@@ -793,8 +845,10 @@ func genOne(g *hx.Gen) {
 					if ch != nil && ch.pendingReq {
 						ch.pendingReq = false
 						g.Stat("chan.reply-solicited")
+						mark("ch-reply-sol")
 					} else {
 						g.Stat("chan.reply-unsolicited")
+						mark("ch-reply-unsol")
 					}
 				}
 			case 9, 10, 11: // open confirmation
@@ -809,8 +863,10 @@ func genOne(g *hx.Gen) {
 						ch.pendingOpen, ch.decided, ch.held = false, true, true
 						gs.heldSlots = append(gs.heldSlots, int(id))
 						g.Stat("confirm.expected")
+						mark("confirm-ok")
 					} else {
 						g.Stat("confirm.dup-or-inbound-or-unknown")
+						mark("confirm-bad")
 					}
 				}
 			case 12: // open failure
@@ -821,17 +877,16 @@ func genOne(g *hx.Gen) {
 						ch.pendingOpen = false
 						gs.slots[id] = nil
 						g.Stat("openfailure.expected")
+						mark("openfail-ok")
+					} else if ch != nil {
+						mark("openfail-bad")
 					}
 				}
 			case 13: // messages decode() knows but the connection layer does not expect: SERVICE_REQUEST / SERVICE_ACCEPT
 				// (one string; read as a channel packet the string LENGTH is the channel id) → `default: ch.msg <- msg`
-				if id < 64 && ch != nil && ch.queued < 10 {
+				if id < 64 && r.Chance(2, 3) {
 					pkt = cat([]byte{byte(r.PickInt(5, 6))}, u32(id), r.Bytes(int(id)))
-					apply = func() {
-						ch.queued++
-						ch.pendingOpen, ch.pendingReq = false, false
-						g.Stat("chan.unsolicited-service-msg")
-					}
+					apply = func() { g.Stat("chan.unsolicited-service-msg") }
 				} else {
 					pkt = cat([]byte{52}, u32(id), r.Bytes(r.PickInt(0, 3))) // USERAUTH_SUCCESS with trailing bytes: parse error
 				}
@@ -854,12 +909,13 @@ func genOne(g *hx.Gen) {
 				pkt = cat([]byte{byte(r.PickInt(80, 90, 91, 92, 93, 98, 192))}, r.Bytes(r.Range(0, 24)))
 			}
 			g.Stat("malformed")
-		case c < 87:
+		case c < 85:
 			toks = append(toks, "o")
 			gs.add(&gchan{live: true, pendingOpen: true})
 			g.Stat("local.open")
+			mark("l-open")
 			continue
-		case c < 92:
+		case c < 90:
 			if gs.globalPending {
 				continue
 			}
@@ -870,8 +926,9 @@ func genOne(g *hx.Gen) {
 				toks = append(toks, "g0")
 			}
 			g.Stat("local.global")
+			mark("l-global")
 			continue
-		case c < 97:
+		case c < 94:
 			if len(gs.heldSlots) == 0 {
 				continue
 			}
@@ -888,21 +945,36 @@ func genOne(g *hx.Gen) {
 				}
 			}
 			g.Stat("local.chanreq")
+			mark("l-chanreq")
 			continue
 		case c < 99:
 			if len(gs.heldSlots) == 0 {
 				continue
 			}
+			if r.Chance(1, 2) {
+				toks = append(toks, fmt.Sprintf("e%d", r.Intn(len(gs.heldSlots))))
+				g.Stat("local.closewrite")
+				mark("l-closewrite")
+				continue
+			}
 			toks = append(toks, fmt.Sprintf("k%d", r.Intn(len(gs.heldSlots))))
 			g.Stat("local.close")
+			mark("l-close")
 			continue
 		default:
 			if len(toks) < n-3 {
 				continue
 			}
-			toks = append(toks, "x")
+			if r.Chance(1, 3) {
+				toks = append(toks, "z")
+				g.Stat("local-conn-close")
+				mark("end-local")
+			} else {
+				toks = append(toks, "x")
+				g.Stat("peer-eof")
+				mark("end-peer")
+			}
 			gs.ended = true
-			g.Stat("peer-eof")
 		}
 		if gs.ended {
 			break
@@ -914,6 +986,8 @@ func genOne(g *hx.Gen) {
 		if fatal && len(toks) < fatalAt {
 			continue
 		}
+		mark(kindOf(gs, pkt))
+		noteMsgType(gs, pkt)
 		apply()
 		toks = append(toks, "p"+hx.Hex(pkt))
 		if fatal {
@@ -928,11 +1002,163 @@ func genOne(g *hx.Gen) {
 		}
 	} else {
 		g.Stat("survived")
+		switch r.Intn(4) { // half of the surviving scripts end with the peer's or the application's hang-up
+		case 0:
+			toks = append(toks, "x")
+			mark("end-peer")
+		case 1:
+			toks = append(toks, "z")
+			mark("end-local")
+		}
 	}
 	if len(toks) == 0 {
 		toks = append(toks, "x")
 	}
+	notePairs(feat)
 	g.Emit("mux steps=%s", strings.Join(toks, ","))
+}
+
+// ---- coverage bookkeeping (feature pairs, message-number arms)
+
+var c36Features = []string{"open-acc", "open-rej", "open-undecided", "open-badmax", "gl-req", "gl-reply-sol", "gl-reply-unsol",
+	"ping", "chan-data", "chan-eof", "chan-close", "chan-adjust", "chan-req", "ch-reply-sol", "ch-reply-unsol", "confirm-ok",
+	"confirm-bad", "openfail-ok", "openfail-bad", "non-chan-msg", "unknown-num", "unknown-id", "malformed", "l-open", "l-global",
+	"l-chanreq", "l-close", "l-closewrite", "end-peer", "end-local"}
+
+// features that end the connection: at most one of them occurs in a script, their mutual pairs do not exist
+var c36Enders = map[string]bool{"confirm-bad": true, "openfail-bad": true, "malformed": true, "non-chan-msg": true, "unknown-num": true,
+	"unknown-id": true, "end-peer": true, "end-local": true}
+var pairCount = map[string]int{}
+var msgArmKnown = map[string]bool{}
+var msgArmUnknown = map[string]bool{}
+var msgArmMux = map[string]bool{}
+
+func notePairs(feat map[string]bool) {
+	for i, a := range c36Features {
+		if !feat[a] {
+			continue
+		}
+		for _, b := range c36Features[i+1:] {
+			if feat[b] {
+				pairCount[a+"+"+b]++
+			}
+		}
+	}
+}
+
+// the arms of the message-number switches of onePacket / handlePacket / handleUnknownChannelPacket / decode
+var muxArms = []string{"80", "81", "82", "90", "192", "short"}
+var chanArms = []string{"91", "92", "93", "94", "95", "96", "97", "98", "99", "100", "5", "6", "52", "other-decodable", "unknown-number"}
+
+func armOf(t byte) string {
+	switch t {
+	case 91, 92, 93, 94, 95, 96, 97, 98, 99, 100, 5, 6, 52:
+		return strconv.Itoa(int(t))
+	case 1, 7, 20, 30, 31, 50, 51, 53, 60, 61, 64, 65, 66:
+		return "other-decodable"
+	}
+	return "unknown-number"
+}
+
+func noteMsgType(gs *gsim, p []byte) {
+	switch p[0] {
+	case 80, 81, 82, 90, 192:
+		msgArmMux[strconv.Itoa(int(p[0]))] = true
+		return
+	}
+	if len(p) < 5 {
+		msgArmMux["short"] = true
+		return
+	}
+	id := binary.BigEndian.Uint32(p[1:])
+	if int(id) < len(gs.slots) && gs.slots[id] != nil {
+		msgArmKnown[armOf(p[0])] = true
+	} else {
+		msgArmUnknown[armOf(p[0])] = true
+	}
+}
+
+// kindOf: the feature a packet contributes to the pair counters
+func kindOf(gs *gsim, p []byte) string {
+	switch p[0] {
+	case 90:
+		if _, rest, ok := rdStr(p[1:]); ok && len(rest) >= 12 {
+			if mp := binary.BigEndian.Uint32(rest[8:]); mp < 9 || mp > 1<<31 {
+				return "open-badmax"
+			}
+			return "open"
+		}
+		return "malformed"
+	case 80:
+		if _, rest, ok := rdStr(p[1:]); ok && len(rest) >= 1 {
+			return "gl-req"
+		}
+		return "malformed"
+	case 81, 82:
+		return "gl-reply"
+	case 192:
+		return "ping"
+	}
+	if len(p) < 5 {
+		return "malformed"
+	}
+	id := binary.BigEndian.Uint32(p[1:])
+	if int(id) >= len(gs.slots) || gs.slots[id] == nil {
+		return "unknown-id"
+	}
+	switch p[0] {
+	case 94, 95:
+		return "chan-data"
+	case 96:
+		return "chan-eof"
+	case 97:
+		return "chan-close"
+	case 93:
+		return "chan-adjust"
+	case 98:
+		return "chan-req"
+	case 99, 100:
+		return "ch-reply"
+	case 91:
+		return "confirm"
+	case 92:
+		return "openfail"
+	case 5, 6, 52, 1, 7, 20, 30, 31, 50, 51, 53, 60, 61, 64, 65, 66:
+		return "non-chan-msg"
+	}
+	return "unknown-num"
+}
+
+func emitCoverage(g *hx.Gen) {
+	for i, a := range c36Features {
+		for _, b := range c36Features[i+1:] {
+			if c36Enders[a] && c36Enders[b] {
+				continue
+			}
+			g.StatN("pair."+a+"+"+b, pairCount[a+"+"+b])
+		}
+	}
+	cnt := func(arms []string, hit map[string]bool) string {
+		n := 0
+		for _, a := range arms {
+			if hit[a] {
+				n++
+			}
+		}
+		if n < len(arms) {
+			var miss []string
+			for _, a := range arms {
+				if !hit[a] {
+					miss = append(miss, a)
+				}
+			}
+			return fmt.Sprintf("%d/%d(missing:%s)", n, len(arms), strings.Join(miss, "+"))
+		}
+		return fmt.Sprintf("%d/%d", n, len(arms))
+	}
+	g.Stat("table.msgtype-mux-level=" + cnt(muxArms, msgArmMux))
+	g.Stat("table.msgtype-known-channel=" + cnt(chanArms, msgArmKnown))
+	g.Stat("table.msgtype-unknown-channel=" + cnt(chanArms, msgArmUnknown))
 }
 
 // genFlood: regression family of the fixed finding mux-blocked-by-unsolicited-channel-messages — an accepted channel
@@ -976,6 +1202,7 @@ func gen(g *hx.Gen) {
 		}
 		genOne(g)
 	}
+	emitCoverage(g)
 }
 
 func main() {
